@@ -101,21 +101,24 @@ def cost_args(costs):
     return args
 
 
-def cli_reconcile(case, algo, policy="any", with_costs=True):
-    """Write the case to a temp file, run `reconcile`, return
-    (status, [parsed JSON lines], printed minimum cost or None, stderr, raw output)."""
-    with TempDir() as tmp:
-        inp = os.path.join(tmp, "in.json")
-        outp = os.path.join(tmp, "out.json")
-        data = {k: v for k, v in case.items() if not k.startswith("_") and k != "costs"}
-        with open(inp, "w") as fh:
-            json.dump(data, fh)
-        argv = ["reconcile", "--input", inp, "--output", outp, "--solutions", policy]
-        if with_costs and "costs" in case:
-            argv += cost_args(case["costs"])
-        argv.append(algo)
-        status, _out, err = run_cli(argv)
-        raw = open(outp).read() if os.path.exists(outp) else ""
+def cli_reconcile(case, algo, policy="any", with_costs=True, via_std=False):
+    """Write the case to a temp file (or feed it on stdin when via_std, reading the
+    result from stdout: the documented defaults of --input/--output), run `reconcile`,
+    return (status, [output lines], printed minimum cost or None, stderr, raw output)."""
+    data = {k: v for k, v in case.items() if not k.startswith("_") and k != "costs"}
+    costs = cost_args(case["costs"]) if with_costs and "costs" in case else []
+    if via_std:
+        status, out, err = run_cli(["reconcile", "--solutions", policy] + costs + [algo], stdin_text=json.dumps(data))
+        raw = out
+    else:
+        with TempDir() as tmp:
+            inp = os.path.join(tmp, "in.json")
+            outp = os.path.join(tmp, "out.json")
+            with open(inp, "w") as fh:
+                json.dump(data, fh)
+            argv = ["reconcile", "--input", inp, "--output", outp, "--solutions", policy] + costs + [algo]
+            status, _out, err = run_cli(argv)
+            raw = open(outp).read() if os.path.exists(outp) else ""
     printed = None
     for line in err.splitlines():
         if line.startswith("Minimum cost:"):
